@@ -109,6 +109,8 @@ AGG = {
 }
 # further getters of an aggregate that read a component through a WRAPPERS class: getter -> component index
 AGG_EXTRA = {"year_month_day_last": {"month": 1}}
+# data members of an aggregate class read directly inside its own members (`_y.ok()`): field name -> component index
+AGG_FIELDS = {"year_month_day_last": {"_y": 0, "_mdl": 1}}
 # one-field wrappers of another one-field class: construction from the wrapped class and the getter named after it are the
 # identity (month_day_last{m}.month() == m), so the wrapper is translated as the wrapped value itself
 WRAPPERS = {"month_day_last": "month"}
@@ -205,6 +207,9 @@ class Fn:
                 if n.get("name") not in self.fields:
                     raise Unsupported("field %s read before it is initialised" % n.get("name"))
                 e, fv, b = self.env[n["name"]]
+                return (e, set(fv), b)
+            if inner[0]["kind"] == "CXXThisExpr" and n.get("name") in AGG_FIELDS.get(self.self_class, {}) and "this#0" in self.env:
+                e, fv, b = self.env["this#%d" % AGG_FIELDS[self.self_class][n["name"]]]
                 return (e, set(fv), b)
             e, fv, b = self.ex(inner[0])
             return (e, fv, b)
@@ -640,7 +645,7 @@ class Fn:
         return "\n\n".join(out)
 
 
-BOOL_FNS = {"year::is_leap", "year::ok", "month::ok", "day::ok", "weekday::ok"}
+BOOL_FNS = {"year::is_leap", "year::ok", "month::ok", "day::ok", "weekday::ok", "month_day_last::ok"}
 
 PRELUDE = """/-
 GENERATED by /verif/gen/translate.py from %(repo)s/include/etl/_chrono — do not edit.
@@ -696,6 +701,13 @@ JOBS = [
     ("years_plus_year", "etl::chrono::operator+", "FunctionDecl", sig_is("years", "year"), None, ["operator+(years,year)"]),
     ("year_add_assign", "etl::chrono::year::operator+=", "CXXMethodDecl", sig_is("years"), "year", []),
     ("year_sub_assign", "etl::chrono::year::operator-=", "CXXMethodDecl", sig_is("years"), "year", []),
+    ("year_month_diff", "etl::chrono::operator-", "FunctionDecl", sig_is("year_month", "year_month"), None,
+     ["operator-(year_month,year_month)"]),
+    ("year_diff", "etl::chrono::operator-", "FunctionDecl", sig_is("year", "year"), None, ["operator-(year,year)"]),
+    ("weekday_iso_encoding", "etl::chrono::weekday::iso_encoding", "CXXMethodDecl", lambda d: True, "weekday", []),
+    ("year_month_ok", "etl::chrono::year_month::ok", "CXXMethodDecl", lambda d: True, "year_month", []),
+    ("month_day_last_ok", "etl::chrono::month_day_last::ok", "CXXMethodDecl", lambda d: True, "month_day_last", ["month_day_last::ok"]),
+    ("ymdl_ok", "etl::chrono::year_month_day_last::ok", "CXXMethodDecl", lambda d: True, "year_month_day_last", []),
     ("months_plus_month", "etl::chrono::operator+", "FunctionDecl", sig_is("months", "month"), None, ["operator+(months,month)"]),
     ("month_minus", "etl::chrono::operator-", "FunctionDecl", sig_is("month", "months"), None, ["operator-(month,months)"]),
     ("month_add_assign", "etl::chrono::month::operator+=", "CXXMethodDecl", sig_is("months"), "month", []),
